@@ -301,6 +301,9 @@ def _run_project(plan: dict, root: str, pdir: str, out: Outcome) -> None:
     xenv['HOME'] = '/c03-home'
     xenv['x'] = 'XVAL'
     xenv['q'] = 'QVAL'
+    outer_b = dict(plan.get('outer_env_build') or {})
+    outer_t = dict(plan.get('outer_env_test') or {})
+    xenv.update(outer_b)
     os.truncate(log, 0)
     sink = io.StringIO()
     ex = mn.Executor(m, bdir, jobs=3, incremental=False, keep_going=0, env=xenv, out=sink)
@@ -317,7 +320,7 @@ def _run_project(plan: dict, root: str, pdir: str, out: Outcome) -> None:
 
     # ---- 4. tests through the real `meson test`
     tr = runner.meson(['test', '--no-rebuild', '--num-processes', '2'], cwd=bdir,
-                      env={'C03_DUMP_LOG': log, 'MESON_TESTTHREADS': '2'}, timeout=100)
+                      env=dict(outer_t, C03_DUMP_LOG=log, MESON_TESTTHREADS='2'), timeout=100)
     test_records = read_log(log)
     import re
     mt = re.search(r'^Timeout:\s+(\d+)', tr.out, re.M)
@@ -335,7 +338,7 @@ def _run_project(plan: dict, root: str, pdir: str, out: Outcome) -> None:
         if trp['test_args']:
             # --test-args takes ONE string that meson splits like a POSIX shell: spell it with plain '...' quoting
             targv.append('--test-args=' + ' '.join("'" + a.replace("'", "'\\''") + "'" for a in trp['test_args']))
-        tr2 = runner.meson(targv, cwd=bdir, env={'C03_DUMP_LOG': log, 'MESON_TESTTHREADS': '2'}, timeout=150)
+        tr2 = runner.meson(targv, cwd=bdir, env=dict(outer_t, C03_DUMP_LOG=log, MESON_TESTTHREADS='2'), timeout=150)
         rep_records = read_log(log)
         mt2 = re.search(r'^Timeout:\s+(\d+)', tr2.out, re.M)
         if tr2.timed_out or bool(mt2 and int(mt2.group(1)) > 0):
@@ -349,7 +352,7 @@ def _run_project(plan: dict, root: str, pdir: str, out: Outcome) -> None:
                 if exp['kind'] != 'test':
                     continue
                 want = list(exp['runs'][0]) + list(trp['test_args'])
-                wenv = exp['env'] or {}
+                wenv = expected_env(plan, exp['env'], outer_t)
                 got = rep_by_id.get(ident, [])
                 out.count('monitor:test_repeat_compared')
                 out.count('monitor:argv_compared', trp['repeat'])
@@ -375,11 +378,16 @@ def _run_project(plan: dict, root: str, pdir: str, out: Outcome) -> None:
                                  dict(locus, execution=n_ + 1, diff=first_diff(want, obs)))
                         break
                     oenv = {k_: l1_to_str(v_) for k_, v_ in g['env'].items()}
+                    if exp['env'] is not None and any(k_ in outer_t for k_ in exp['env']):
+                        out.count('monitor:env_append_prepend_onto_outer_compared')
                     if oenv != wenv:
                         ok_all = False
                         dk = next(k_ for k_ in sorted(set(wenv) | set(oenv)) if wenv.get(k_) != oenv.get(k_))
-                        _violate(out, plan, mechanism('test', 'test-repeat', 'env-bytes', [wenv.get(dk, '')], [oenv.get(dk, '')]),
-                                 dict(locus, var=dk, expected=wenv.get(dk), observed=oenv.get(dk)))
+                        seen_vals = sorted({l1_to_str(g_['env'].get(dk, '')) for g_ in got})
+                        mech_ = 'test:test-repeat:env-differs-between-executions' if len(seen_vals) > 1 and wenv.get(dk) in seen_vals \
+                            else mechanism('test', 'test-repeat', 'env-bytes', [wenv.get(dk, '')], [oenv.get(dk, '')])
+                        _violate(out, plan, mech_,
+                                 dict(locus, var=dk, expected=wenv.get(dk), observed=oenv.get(dk), values_seen=seen_vals[:4]))
                         break
                 if ok_all:
                     mm_ = out.modes.setdefault(exp['pos'], {})
@@ -435,7 +443,7 @@ def _run_project(plan: dict, root: str, pdir: str, out: Outcome) -> None:
                 continue
             obs_set = sorted([l1_to_str(a) for a in g['argv']] for g in got)
             want_set = sorted(list(v) for v in exp['multi'])
-            wenv = exp['env'] or {}
+            wenv = expected_env(plan, exp['env'], outer_b)
             env_bad = [g['env'] for g in got if {k_: l1_to_str(v_) for k_, v_ in g['env'].items()} != wenv]
             modes_seen = sorted({command_mode(by_out[o].get('command')) for o in exp['outs'] if o in by_out})
             if obs_set != want_set or env_bad:
@@ -472,7 +480,9 @@ def _run_project(plan: dict, root: str, pdir: str, out: Outcome) -> None:
             what = 'arg-count' if len(obs) != len(want) else 'arg-bytes'
             _violate(out, plan, mechanism(kind, mode, what, want, obs),
                      dict(locus, diff=first_diff(want, obs), command=cmdline[:2000], layer=layer_hint(exp, elem_fail, exe_fail)))
-        wenv = exp['env'] or {}
+        wenv = expected_env(plan, exp['env'], outer_t if kind == 'test' else outer_b)
+        if exp['env'] is not None and any(k_ in (outer_t if kind == 'test' else outer_b) for k_ in exp['env']):
+            out.count('monitor:env_append_prepend_onto_outer_compared')
         oenv = {k: l1_to_str(v) for k, v in got[0]['env'].items()}
         if exp['env'] is not None:
             out.count('monitor:env_compared')
@@ -598,6 +608,20 @@ def _run_project(plan: dict, root: str, pdir: str, out: Outcome) -> None:
         _violate(out, plan, 'elem-roundtrip:%s:%s' % (bad['via'], bad['cls']), {'edge_out': oname, 'detail': bad})
     for bad in exe_fail:
         _violate(out, plan, 'exe-serialisation:%s:%s' % (bad['form'], bad['cls']), {'detail': bad})
+
+
+def expected_env(plan: dict, exp_env: T.Optional[T.Mapping[str, str]], outer: T.Mapping[str, str]) -> T.Dict[str, str]:
+    """DUMP_* variables a process must see: the outer ones untouched, the specified ones on top; a variable given with
+    env.append()/prepend() that already has an outer value is outer+sep+values / values+sep+outer (env object reference)."""
+    res = dict(outer)
+    for k, v in (exp_env or {}).items():
+        res[k] = v
+    for op in (plan.get('envops') or {}).values():
+        k = op['key']
+        if exp_env is not None and k in exp_env and k in outer and exp_env[k] == op['sep'].join(op['values']):
+            parts = ([outer[k]] + list(op['values'])) if op['method'] == 'append' else (list(op['values']) + [outer[k]])
+            res[k] = op['sep'].join(parts)
+    return res
 
 
 def layer_hint(exp: dict, elem_fail: T.Dict[str, dict], exe_fail: T.List[dict]) -> T.Optional[str]:
@@ -858,7 +882,7 @@ def main() -> int:
     if done < len(order):
         chk.count('projects_skipped_time_budget', len(order) - done)
 
-    for k in ('monitor:test_repeat_compared', 'monitor:test_args_compared', 'monitor:env_form_string_or_list', 'monitor:env_form_dict_or_set', 'monitor:pickle_collision_group_compared', 'monitor:exe_rsp_file_checked', 'monitor:argv_compared', 'monitor:test_argv_compared', 'monitor:elem_roundtrip', 'monitor:exe_pickle_checked',
+    for k in ('monitor:env_append_prepend_onto_outer_compared', 'monitor:test_repeat_compared', 'monitor:test_args_compared', 'monitor:env_form_string_or_list', 'monitor:env_form_dict_or_set', 'monitor:pickle_collision_group_compared', 'monitor:exe_rsp_file_checked', 'monitor:argv_compared', 'monitor:test_argv_compared', 'monitor:elem_roundtrip', 'monitor:exe_pickle_checked',
               'monitor:exe_cmdline_checked', 'monitor:rsp_decoded', 'monitor:compile_slot_compared', 'monitor:link_slot_compared',
               'monitor:env_compared', 'monitor:stdin_compared', 'monitor:contract_quote_arg', 'monitor:contract_rsp_quote',
               'monitor:contract_ninja_quote', 'monitor:buildargv_calibrated_agree', 'monitor:literal_calibration',
